@@ -34,7 +34,7 @@ EXC_PARENTS = {
     "ValueError": "Exception", "TypeError": "Exception", "StopIteration": "Exception",
     "AssertionError": "Exception", "AttributeError": "Exception", "OverflowError": "ArithmeticError",
     "ArithmeticError": "Exception", "UnicodeDecodeError": "ValueError", "NotImplementedError": "RuntimeError",
-    "RuntimeError": "Exception", "Exception": "BaseException",
+    "RuntimeError": "Exception", "Exception": "BaseException", "PbDecodeError": "Exception",
 }
 
 
@@ -53,6 +53,10 @@ class Engine:
         self.schema = schema          # specs.schema module-like: field sorts, class ids
         self.reg = registry           # contracts registry
         self.exc_paths = []           # [(State, Exc)] parked exceptional sub-paths
+        # exception classes defined in /repo: parent taken from the real class statement (first base)
+        for ci in list(program.classes.values()) * 3:
+            if ci.base_exprs and (ci.base_exprs[0].split(".")[-1] in EXC_PARENTS or ci.name in EXC_PARENTS):
+                EXC_PARENTS[ci.name] = ci.base_exprs[0].split(".")[-1]
         self.cur_fn = None
         self.loop_counter = 0
         self.inline_depth = 0
@@ -112,6 +116,12 @@ class Engine:
             # Schema.static_field)
             import zlib
             value = SV("val", Val.VOpaque(z3.IntVal(zlib.crc32(value.x[0].qual.encode()))))
+        if value.k == "boundmethod":
+            # bound method stored as a value (e.g. ir.get_by_uuid): a token made of the function and the receiver
+            import zlib
+            o, m, _ci = value.x
+            value = SV("val", Val.VPair(Val.VOpaque(z3.IntVal(zlib.crc32(m.qual.encode()))),
+                                        to_val(o) if o is not None else VNone))
         if kind == "val":
             st.heap[key] = z3.Store(self.field_array(st, key), obj_ref, to_val(value))
         elif kind == "set":
@@ -275,6 +285,11 @@ class Engine:
             return self.as_int(a, st) == self.as_int(b, st)
         if a.k == "str" and b.k == "str":
             return a.t == b.t
+        if a.k == "blob" or b.k == "blob":
+            from .iomodel import as_blob
+            if a.k in ("blob", "bytes", "val") and b.k in ("blob", "bytes", "val"):
+                return as_blob(self, a, st) == as_blob(self, b, st)
+            return z3.BoolVal(False)
         if a.k == "set" or b.k == "set":
             return self.as_set(a, st).t == self.as_set(b, st).t
         if a.k == "tuple" and b.k == "tuple":
@@ -571,6 +586,9 @@ class Engine:
 
     def set_attr(self, obj, attr, val, st):
         cls = obj.cls
+        if cls and cls.startswith("pb:"):
+            self.schema.pb.set(self, obj, attr, val, st)
+            return
         ci = self.prog.classes.get(cls) if cls else None
         if ci is not None:
             setter = ci.lookup_setter(attr)
@@ -1285,6 +1303,9 @@ class Engine:
             m = ci.lookup(attr)
             if m is not None:
                 return SV("boundmethod", x=(None, m, ci))
+            sp = self.schema.class_attr_special(self, ci, attr, st)
+            if sp is not None:
+                return sp
             c = ci.lookup_const(attr)
             if c is not None:
                 return self.eval(c, st)
